@@ -286,33 +286,65 @@ Example C11_corner_value_binary64 :
   predict_submodel FNum corner_cf corner_tcf 95%float = Some ((-5)%float, 0%float, (-25)%float).
 Proof. vm_compute. reflexivity. Qed.
 
-(* ------------------------------------------------------------------ the rounding gap made concrete (finding C11-F2) *)
+(* ------------------------------------------------------------------ the shifted balance points never cross (was finding C11-F2) *)
 
 (* Over the reals get_smooth_coeffs keeps the order (C11_smooth_coeffs_order); when the two smoothing fractions add
-   up to more than one the shifted balance points MEET.  In binary64 they are computed independently and can
-   cross by one ulp; full_model then swaps the two sides, slopes included.  Same model text, binary64 instance:
-   hdd_bp 12.106478702938013, pct_hdd_k 0.4126133326537498, cdd_bp 16.12505849339802, pct_cdd_k 0.6380378622932393 *)
+   up to one or more the shifted balance points MEET.  Until /repo 742a3de4 they were computed independently in
+   binary64 and could cross by one ulp, after which full_model swapped the two sides, slopes included (finding
+   C11-F2, now fixed).  The model text contains the guard exactly as coded, and the order now holds for EVERY numeric
+   instance whose comparisons are irreflexive / consistent -- no property of + - * / is used: *)
+Theorem C11_smooth_coeffs_never_cross_any_num : forall N : num,
+  (forall x : N, @n_ltb N x x = false) ->
+  (forall a b : N, @n_leb N a b = true -> @n_ltb N b a = false) ->
+  forall hb ph cb pc : N, @n_leb N hb cb = true ->
+  let '(hb', _, cb', _) := get_smooth_coeffs N hb ph cb pc in @n_ltb N cb' hb' = false.
+Proof. exact smooth_coeffs_never_cross. Qed.
+Print Assumptions C11_smooth_coeffs_never_cross_any_num.
+
+(* ... so the swap that opens full_model cannot fire on what get_smooth_coeffs returned for an ordered pair *)
+Theorem C11_smooth_vector_not_swapped_any_num : forall N : num,
+  (forall x : N, @n_ltb N x x = false) ->
+  (forall a b : N, @n_leb N a b = true -> @n_ltb N b a = false) ->
+  forall hb ph cb pc hbeta cbeta i : N, @n_leb N hb cb = true ->
+  let '(hb', hk, cb', ck) := get_smooth_coeffs N hb ph cb pc in
+  order_bps N (Build_fullx N hb' hbeta hk cb' cbeta ck i) = Build_fullx N hb' hbeta hk cb' cbeta ck i.
+Proof. exact smooth_vector_not_swapped. Qed.
+Print Assumptions C11_smooth_vector_not_swapped_any_num.
+
+(* the real instance satisfies the two comparison facts (no hypothesis left) *)
+Theorem C11_smooth_coeffs_never_cross_R : forall hb ph cb pc : R, hb <= cb ->
+  let '(hb', _, cb', _) := get_smooth_coeffs RNum hb ph cb pc in ~ cb' < hb'.
+Proof.
+  intros hb ph cb pc H.
+  pose proof (smooth_coeffs_never_cross RNum Rltb_irrefl Rleb_not_gt hb ph cb pc (proj2 (Rleb_true hb cb) H)) as P.
+  destruct (get_smooth_coeffs RNum hb ph cb pc) as [[[hb' hk] cb'] ck].
+  change (Rltb cb' hb' = false) in P. apply Rltb_false in P. lra.
+Qed.
+Print Assumptions C11_smooth_coeffs_never_cross_R.
+
+(* the old witness of C11-F2 at binary64 (hdd_bp 12.106478702938013, pct_hdd_k 0.4126133326537498,
+   cdd_bp 16.12505849339802, pct_cdd_k 0.6380378622932393): the shifted points no longer cross ... *)
 Definition cross_hb : float := (0x1.836846065adb4p+3)%float.
 Definition cross_ph : float := (0x1.a6841c0690d18p-2)%float.
 Definition cross_cb : float := (0x1.02003d55b3b45p+4)%float.
 Definition cross_pc : float := (0x1.46ace61051849p-1)%float.
-Example C11_rounding_cross_binary64 :
+Example C11_old_rounding_witness_ordered_binary64 :
   let '(hbp', _, cbp', _) := get_smooth_coeffs FNum cross_hb cross_ph cross_cb cross_pc in
-  PrimFloat.ltb cbp' hbp' = true.
-Proof. vm_compute. reflexivity. Qed.
+  PrimFloat.ltb cbp' hbp' = false /\ PrimFloat.eqb cbp' hbp' = true.
+Proof. vm_compute. split; reflexivity. Qed.
 
-(* heating slope 1.75, cooling slope 5.25, base load 58: at -60 F the heating load should be
-   1.75 * (12.1 + 72) < 130 even without smoothing; the swapped kernel returns more than 370 *)
+(* ... and the heating side follows the heating slope again: slope 1.75, base load 58, at -60 F the heating load is
+   below 1.75 * (12.11 + 60) < 130 (it was more than 370 when the sides were swapped) *)
 Definition cross_c : coeffs FNum :=
   Build_coeffs FNum HddTiddCddSmooth 58%float (Some cross_hb) (Some 1.75%float) (Some cross_ph)
                                               (Some cross_cb) (Some 5.25%float) (Some cross_pc).
 Definition cross_tc : tconstr FNum := Build_tconstr FNum 10%float 84%float 12%float 83%float.
-Example C11_rounding_cross_swaps_slopes :
+Example C11_old_rounding_witness_slopes_kept :
   match predict_submodel FNum cross_c cross_tc (-60)%float with
-  | Some (_, h, _) => PrimFloat.ltb 370%float h = true
+  | Some (_, h, _) => PrimFloat.ltb h 130%float = true /\ PrimFloat.ltb 100%float h = true
   | None => False
   end.
-Proof. vm_compute. reflexivity. Qed.
+Proof. vm_compute. split; reflexivity. Qed.
 
 (* ------------------------------------------------------------------ non-vacuity *)
 
